@@ -428,7 +428,10 @@ def group_oracle(spec, off, rng_seed):
                 return {"index": list(t), "id": v, "expected_id": start + pos}
             # 3. round trip, both polarities
             for lit in (v, -v):
-                back = tuple(g.to_index(lit))
+                try:
+                    back = tuple(g.to_index(lit))
+                except Exception as e:
+                    return {"index": list(t), "lit": lit, "to_index_raised": type(e).__name__}
                 if back != t:
                     return {"index": list(t), "lit": lit, "to_index": list(back)}
             if (v in g) is not True or (-v in g) is not True:
